@@ -1079,7 +1079,17 @@ func (p *Path) callBuiltin(caller *frame, fn *ssa.Builtin, args []Value, site ss
 		n := 0
 		switch src := args[1].(type) {
 		case Slice:
-			n = copy(dst, src)
+			n = len(src)
+			if len(dst) < n {
+				n = len(dst)
+			}
+			tmp := make([]Value, n)
+			for i := 0; i < n; i++ {
+				tmp[i] = copyVal(src[i])
+			}
+			for i := 0; i < n; i++ {
+				dst[i] = tmp[i]
+			}
 		case Str:
 			for n < len(dst) && n < len(src.b) {
 				dst[n] = src.b[n]
